@@ -259,9 +259,9 @@ Props/C11.vos Props/C11.vok Props/C11.required_vos: Props/C11.v Model/Mon.vos Mo
 Props/C02.vo Props/C02.glob Props/C02.v.beautified Props/C02.required_vo: Props/C02.v Model/Mon.vo Model/MonC01.vo Model/MonC02.vo Model/MonC03.vo Proofs/SysInv.vo Proofs/PC01.vo Proofs/PC03.vo Proofs/PC02.vo
 Props/C02.vio: Props/C02.v Model/Mon.vio Model/MonC01.vio Model/MonC02.vio Model/MonC03.vio Proofs/SysInv.vio Proofs/PC01.vio Proofs/PC03.vio Proofs/PC02.vio
 Props/C02.vos Props/C02.vok Props/C02.required_vos: Props/C02.v Model/Mon.vos Model/MonC01.vos Model/MonC02.vos Model/MonC03.vos Proofs/SysInv.vos Proofs/PC01.vos Proofs/PC03.vos Proofs/PC02.vos
-Props/C13.vo Props/C13.glob Props/C13.v.beautified Props/C13.required_vo: Props/C13.v Model/Mon.vo Model/MonC13.vo Model/Valid.vo Model/Route.vo Model/Plug.vo Proofs/Discipline.vo Proofs/SysInv.vo Proofs/PC13.vo Spec/WitnessD2.vo
-Props/C13.vio: Props/C13.v Model/Mon.vio Model/MonC13.vio Model/Valid.vio Model/Route.vio Model/Plug.vio Proofs/Discipline.vio Proofs/SysInv.vio Proofs/PC13.vio Spec/WitnessD2.vio
-Props/C13.vos Props/C13.vok Props/C13.required_vos: Props/C13.v Model/Mon.vos Model/MonC13.vos Model/Valid.vos Model/Route.vos Model/Plug.vos Proofs/Discipline.vos Proofs/SysInv.vos Proofs/PC13.vos Spec/WitnessD2.vos
+Props/C13.vo Props/C13.glob Props/C13.v.beautified Props/C13.required_vo: Props/C13.v Model/Mon.vo Model/MonC13.vo Model/MonC05.vo Model/MonC03.vo Model/MonC05h.vo Model/Valid.vo Model/Route.vo Model/Plug.vo Proofs/Discipline.vo Proofs/SysInv.vo Proofs/PC13.vo Proofs/PT05.vo Spec/WitnessD2.vo
+Props/C13.vio: Props/C13.v Model/Mon.vio Model/MonC13.vio Model/MonC05.vio Model/MonC03.vio Model/MonC05h.vio Model/Valid.vio Model/Route.vio Model/Plug.vio Proofs/Discipline.vio Proofs/SysInv.vio Proofs/PC13.vio Proofs/PT05.vio Spec/WitnessD2.vio
+Props/C13.vos Props/C13.vok Props/C13.required_vos: Props/C13.v Model/Mon.vos Model/MonC13.vos Model/MonC05.vos Model/MonC03.vos Model/MonC05h.vos Model/Valid.vos Model/Route.vos Model/Plug.vos Proofs/Discipline.vos Proofs/SysInv.vos Proofs/PC13.vos Proofs/PT05.vos Spec/WitnessD2.vos
 Props/C15.vo Props/C15.glob Props/C15.v.beautified Props/C15.required_vo: Props/C15.v Gen/Status.vo Spec/Front15.vo Model/Coro.vo Model/Equiv.vo Model/Render.vo Proofs/PC15.vo
 Props/C15.vio: Props/C15.v Gen/Status.vio Spec/Front15.vio Model/Coro.vio Model/Equiv.vio Model/Render.vio Proofs/PC15.vio
 Props/C15.vos Props/C15.vok Props/C15.required_vos: Props/C15.v Gen/Status.vos Spec/Front15.vos Model/Coro.vos Model/Equiv.vos Model/Render.vos Proofs/PC15.vos
